@@ -179,6 +179,9 @@ def oracle(case, out):
                 break
         if len(set(rows)) != len(rows):
             fs.append(('jumps/duplicate', f'mr={mr}: duplicate jump'))
+        elif len({r[:4] for r in rows}) != len(rows):
+            dup = sorted(r for r in rows if sum(1 for q in rows if q[:4] == r[:4]) > 1)[:2]
+            fs.append(('jumps/same-default-jump-twice', f'mr={mr}: one change of visited site (atom, origin, destination, start time) is reported as several jumps: {dup}'))
         if prev is not None and not set(rows) <= prev:
             fs.append(('jumps/residence-not-monotone', f'raising minimal residence to {mr} added {sorted(set(rows) - prev)[:3]}'))
         prev = set(rows)
